@@ -363,6 +363,9 @@ def metadata_of(r, out):
     return out
 
 
+_FILES_SEEN = {}
+
+
 def _packaged(d):
     """The react / react-dom dependency the library itself ships (a user's dependency may carry the same name)."""
     return d.name in ("react", "react-dom") and isinstance(d.source, dict) and d.source.get("package") == "htmltools" and d.source.get("subdir") == "lib/" + d.name
@@ -420,11 +423,15 @@ def check_case(ctx, r, n_conv=2):
             ctx.violation("jsx-react-dependency-missing", "%s occurs %d times among the result's dependencies" % (lib, names.count(lib)), wit)
             return False
         d = deps[names.index(lib)]
-        src = d.source_path_map()["source"]
-        for s in d.script:
-            if not os.path.isfile(os.path.join(src, s["src"])):
-                ctx.violation("jsx-react-file-missing", "%s script %s does not exist in the package" % (lib, s["src"]), wit)
-                return False
+        key_ = (lib, str(d.version), repr(d.source), tuple(s_["src"] for s_ in d.script))
+        if key_ not in _FILES_SEEN:
+            # (looked up once per distinct definition: resolving a package directory costs a temporary directory each time)
+            src = d.source_path_map()["source"]
+            _FILES_SEEN[key_] = [s_["src"] for s_ in d.script if not os.path.isfile(os.path.join(src, s_["src"]))]
+        ctx.count("oracle.react_files")
+        if _FILES_SEEN[key_] or not d.script:
+            ctx.violation("jsx-react-file-missing", "%s script %s does not exist in the package" % (lib, _FILES_SEEN[key_] or "(none listed)"), wit)
+            return False
     # what a caller does to one result (e.g. pointing react at another build) does not show up in the next conversion
     pristine = {lib: fp(deps[names.index(lib)]) for lib in ("react", "react-dom")}
     for lib in ("react", "react-dom"):
@@ -666,6 +673,22 @@ def run(ctx):
         ctx.guard(check_case, ctx, fixed, 5, witness={"component": fixed})
         ctx.case(fixed)
         ctx.sample({"component": fixed, "output": str(build(fixed))})
+        # sizes ordinary components never reach: 160 props, 1800 children, components nested 70 deep, long strings
+        big_props = [["p%d_x" % k, ({"p": "num", "v": k} if k % 4 == 0 else {"p": "str", "v": "s%d 'q'" % k} if k % 4 == 1 else
+                                  {"p": "list", "v": [{"p": "num", "v": j} for j in range(k % 40)]} if k % 4 == 2 else {"p": "dict", "v": [["k%d" % j, {"p": "bool", "v": bool(j % 2)}] for j in range(k % 30)]})]
+                     for k in range(160)]
+        big_kids = [({"k": "jtext", "s": "t%d" % k} if k % 3 == 0 else {"k": "jtag", "name": "span", "attrs": [], "c": [{"k": "jtext", "s": "k"}]} if k % 3 == 1
+                     else {"k": "dep", "name": "bigdep%d" % (k % 40), "version": "1.0", "script": [{"src": "x.js"}]}) for k in range(1800)]
+        big = {"k": "jsx", "name": "Big.List", "props": big_props, "c": big_kids, "how": "extend"}
+        deep = {"k": "jsx", "name": "Leaf", "props": [["value", {"p": "str", "v": "x" * 120000}]], "c": [{"k": "dep", "name": "deepdep", "version": "1.0", "script": [{"src": "x.js"}]}], "how": "ctor"}
+        for d_ in range(70):
+            deep = ({"k": "jsx", "name": "Wrap", "props": [["level", {"p": "num", "v": d_}]], "c": [{"k": "jtext", "s": "l%d" % d_}, deep], "how": "append"} if d_ % 2
+                    else {"k": "jtag", "name": "div", "attrs": [], "c": [deep, {"k": "jtext", "s": "r%d" % d_}]})
+        deep = {"k": "jsx", "name": "Root", "props": [["child", {"p": "node", "v": {"k": "jtag", "name": "p", "attrs": [], "c": [{"k": "dep", "name": "propdep", "version": "1.0", "script": [{"src": "x.js"}]}]}}]], "c": [deep], "how": "ctor"}
+        for r_ in (big, deep):
+            ctx.guard(check_case, ctx, r_, 3, witness={"component": "large deterministic component " + r_["name"]})
+            ctx.case(("large", r_["name"]), nontrivial=True)
+            ctx.count("very_large_components")
     for _ in range(ctx.budget(1500, 400000)):
         cnt = Counter()
         r = rand_comp(rng, cnt, rng.choice([0, 1, 2, 3, 4, 5]))
